@@ -43,6 +43,8 @@ structure ProjView where
   isNumber : String → Bool := fun _ => false
   /-- spec of a local action ↦ the type of its `outputs`, when the project has its metadata (`typeOfActionOutputs`) -/
   actionOutputs : String → Option Ty := fun _ => none
+  /-- `config-variables` of the configuration file (`none` = nil: `vars.*` is not checked) -/
+  configVars : Option (List String) := none
 
 def ProjView.jobView (p : ProjView) (id : String) : ProjJob :=
   match p.jobs.find? (·.1 = id) with
@@ -63,7 +65,7 @@ def bytesOf (s : String) : List Nat := s.toUTF8.toList.map (·.toNat)
 
 /-- `checkSemanticsOfExprNode`: the semantic check of a parsed placeholder under the scope in effect -/
 def checkParsed (cx : Cx) (key : String) (untrusted : Bool) (pe : AL.Parse.Expr) (off : Nat) : Option (Ty × Nat) × List SemaErr :=
-  let r := check (mkEnv cx.lower cx.hdr cx.jobsTy cx.st key) (toE cx.lower pe)
+  let r := check { mkEnv cx.lower cx.hdr cx.jobsTy cx.st key with configVars := cx.proj.configVars } (toE cx.lower pe)
   let u := if untrusted then (AL.Insecure.run AL.Gen.untrustedRoots r.evs).map fun paths => err "untrusted" paths else []
   let errs := r.errs ++ u
   if errs.isEmpty then (some (r.ty, off), []) else (none, errs)
